@@ -5,6 +5,11 @@
 (* Uniq.tla.  TLC recomputes the specification on the logged input and accepts the event iff the   *)
 (* logged output is the required one.                                                              *)
 (*   op = "uniq"    : obichunk.IUniqueSequence (level "lib") or the obiuniq binary (level "bin")   *)
+(*                    (options -m k, -m k:w or both: `merge`, `wmerge`)                            *)
+(*   op = "pass2"   : second pass of obiuniq, with the same options, over the real output records  *)
+(*                    of two first passes (one per half of a data set): `recs` are those output    *)
+(*                    records read back as input records (already merged for every requested      *)
+(*                    descriptor, with whatever k and w they kept)                                *)
 (*   op = "demerge" : the obidemerge binary / MakeDemergeWorker on merged records                  *)
 (*   op = "law"     : last stage of  obiuniq -m k | obidemerge -d k | obiuniq -m k ; `ref` is the  *)
 (*                    output of the first stage, which the last one must reproduce                 *)
@@ -19,17 +24,19 @@ U == INSTANCE Uniq WITH Seqs <- {}, NCat <- 0, CatVals <- {}, PlainShapes <- {},
         MapShapes <- {}, OptSet <- {}, MaxN <- 0, ChunkCounts <- {}, LawsMaxN <- 0, NA <- "NA", Missing <- "-",
         opt <- [ncat |-> 0, merge |-> FALSE, ns |-> FALSE], idx <- <<>>
 
-Rec(t) == [seq |-> t[1], cat |-> t[2], count |-> t[3], mt |-> t[4], mv |-> t[5], mm |-> t[6]]
+Rec(t) == [seq |-> t[1], cat |-> t[2], count |-> t[3], mt |-> t[4], mv |-> t[5], mm |-> t[6], w |-> t[7], wt |-> t[8], wm |-> t[9]]
 OutRec(t) == [seq |-> t[1], cat |-> t[2], count |-> t[3], merged |-> t[4]]
 SetOf(s) == {s[i] : i \in DOMAIN s}
 Key2(S) == {<<x[1], x[2]>> : x \in S}
 Key3(S) == {<<x[1], x[2], x[3]>> : x \in S}
+Key4(S) == {<<x[1], x[2], x[3], x[4]>> : x \in S}
 
 Compare(e, got, exp) ==
   IF Len(e.out) # Cardinality(Key2(got)) THEN "duplicate-key"
   ELSE IF Key2(got) # Key2(exp) THEN (IF Key2(got) \subseteq Key2(exp) THEN "class-lost" ELSE "class-wrong")
   ELSE IF Key3(got) # Key3(exp) THEN "count"
-  ELSE IF got # exp THEN "merged"
+  ELSE IF Key4(got) # Key4(exp) THEN "merged"
+  ELSE IF got # exp THEN "wmerged"
   ELSE "ok"
 
 Verdict(e) ==
@@ -37,14 +44,14 @@ Verdict(e) ==
   ELSE IF e.hung # 0 THEN "hung"
   ELSE IF e.rc # 0 THEN "exit-status"
   ELSE IF e.bad # 0 THEN "undecodable-output"
-  ELSE IF e.op \in {"uniq", "law"} THEN
+  ELSE IF e.op \in {"uniq", "law", "pass2"} THEN
        LET r   == [i \in DOMAIN e.recs |-> Rec(e.recs[i])]
-           o   == [ncat |-> e.ncat, merge |-> e.merge = 1, ns |-> e.ns = 1]
+           o   == [ncat |-> e.ncat, merge |-> e.merge = 1, ns |-> e.ns = 1, wmerge |-> e.wmerge = 1]
            exp == {U!EncOut(x) : x \in U!UniqFold(r, o)}
            got == SetOf(e.out)
            c   == Compare(e, got, exp)
        IN  IF c # "ok" THEN c
-           ELSE IF e.op = "law" /\ got # SetOf(e.ref) THEN "law-broken"
+           ELSE IF e.op = "law" /\ Key4(got) # Key4(SetOf(e.ref)) THEN "law-broken"
            ELSE "ok"
   ELSE IF e.op = "demerge" THEN
        LET exp == {U!EncDem(d) : d \in U!Demerge({OutRec(e.recs[i]) : i \in DOMAIN e.recs})}
